@@ -232,6 +232,13 @@ def check(ctx):
             ctx.violation('C02.R3', rel, n, '%s::Real.encode' % rel,
                           'the float is scaled with binary floating-point arithmetic (%s) before being formatted: powers of ten are inexact, so the text no longer identifies the '
                           'same double (123456789.12345679 does not round-trip)' % norm_stmt(Model.enclosing_stmt(n)), stmt='float arithmetic before formatting')
+        # a') rounding: a precision-limited format or round() before the text is produced
+        lossy = [(g_, n_, what_) for g_ in fam for n_, what_ in siblings.lossy_float_ops(g_, float_param_aliases(g_))]
+        ctx.instance('C02.R3', '%s.Real.encode: the float is not rounded before it is formatted' % short, 'ok' if not lossy else 'VIOLATION', node=f, file=rel)
+        for g_, n_, what_ in lossy[:1]:
+            ctx.violation('C02.R3', rel, n_, '%s::Real.encode' % rel,
+                          'the float goes through %s before the text is produced: fewer than 17 significant digits do not identify a double, so neighbouring values share one text and the '
+                          'decoded value differs from the encoded one' % what_, stmt='float rounded before formatting')
         # b) exponent appended to a raw float
         for g_ in fam:
             al = float_param_aliases(g_)
